@@ -49,6 +49,16 @@ theorem and7 (ch : Int) (h : 0 ≤ ch) : Rt.andI ch 7 = ((ch.toNat % 8 : Nat) : 
   have : (7 : Int).toNat = 2 ^ 3 - 1 := by decide
   rw [this, Nat.and_two_pow_sub_one_eq_mod]
 
+/-- the same two quantities spelt `channel / 8` and `channel % 8` (a harmless rewrite of the source) -/
+theorem div8 (ch : Int) (h : 0 ≤ ch) (h1 : ch ≤ 18446744073709551615) : Rt.divC .usize ch 8 = some (((ch.toNat / 8 : Nat)) : Int) := by
+  rw [Rt.divC_pos h (by decide), Rt.ck_usize (by omega) (by omega)]; congr 1; omega
+
+theorem rem8 (ch : Int) (h : 0 ≤ ch) (h1 : ch ≤ 18446744073709551615) : Rt.remC .usize ch 8 = some (((ch.toNat % 8 : Nat)) : Int) := by
+  have h8 : (8 : Int) ≠ 0 := by decide
+  simp only [Rt.remC, h8, if_false]
+  have : Int.tmod ch 8 = ch % 8 := by rw [Int.tmod_eq_emod_of_nonneg h]
+  rw [this, Rt.ck_usize (by omega) (by omega)]; congr 1; omega
+
 theorem idx_ofNat (l : List Nat) (i : Nat) : Rt.idx (l.map Int.ofNat) (i : Int) = l[i]?.map Int.ofNat := by
   simp only [Rt.idx]
   rw [if_neg (by omega)]
@@ -83,14 +93,14 @@ theorem natsOf_lt (l : List Int) (h : Octets l) : ∀ x ∈ natsOf l, x < 256 :=
 
 /-! ## on masks given as lists of naturals below 256 -/
 
-theorem set_channel_nat (l : List Nat) (hb : ∀ x ∈ l, x < 256) (ch : Int) (h0 : 0 ≤ ch) (set : Bool) :
+theorem set_channel_nat (l : List Nat) (hb : ∀ x ∈ l, x < 256) (ch : Int) (h0 : 0 ≤ ch) (h1 : ch ≤ 18446744073709551615) (set : Bool) :
     (Gen.ChannelMaskFn.ChannelMask.set_channel ⟨l.map Int.ofNat⟩ ch set).map (fun m => natsOf m._0)
       = (Mask.setChannel l ch.toNat set).toOption := by
   unfold Gen.ChannelMaskFn.ChannelMask.set_channel Mask.setChannel
   have hk : ch.toNat % 8 < 8 := Nat.mod_lt _ (by decide)
   obtain ⟨e1, _, _, _⟩ := bit_facts ⟨0, by decide⟩ ⟨ch.toNat % 8, hk⟩
   simp only at e1
-  simp only [shr3 ch h0, and7 ch h0, e1, Option.bind_eq_bind, Option.bind_some, idx_ofNat]
+  simp only [shr3 ch h0, and7 ch h0, div8 ch h0 h1, rem8 ch h0 h1, e1, Option.bind_eq_bind, Option.bind_some, idx_ofNat]
   cases hq : l[ch.toNat / 8]? with
   | none => cases set <;> simp [Except.toOption, Model.panic]
   | some b =>
@@ -110,12 +120,12 @@ theorem set_channel_nat (l : List Nat) (hb : ∀ x ∈ l, x < 256) (ch : Int) (h
     · simp only [if_true, Option.map_some, Option.bind_some, e2', setIdx_ofNat l _ _ hlt,
         Option.pure_def, Option.map_some, natsOf_ofNat, Except.toOption]
 
-theorem channel_enabled_nat (l : List Nat) (hb : ∀ x ∈ l, x < 256) (i : Int) (h0 : 0 ≤ i) :
+theorem channel_enabled_nat (l : List Nat) (hb : ∀ x ∈ l, x < 256) (i : Int) (h0 : 0 ≤ i) (h1 : i ≤ 18446744073709551615) :
     Gen.ChannelMaskFn.ChannelMask.channel_enabled ⟨l.map Int.ofNat⟩ i
       = l[i.toNat / 8]?.map (fun b => b.testBit (i.toNat % 8)) := by
   unfold Gen.ChannelMaskFn.ChannelMask.channel_enabled
   have hk : i.toNat % 8 < 8 := Nat.mod_lt _ (by decide)
-  simp only [shr3 i h0, and7 i h0, Option.bind_eq_bind, Option.bind_some, idx_ofNat]
+  simp only [shr3 i h0, and7 i h0, div8 i h0 h1, rem8 i h0 h1, Option.bind_eq_bind, Option.bind_some, idx_ofNat]
   cases hq : l[i.toNat / 8]? with
   | none => simp
   | some b =>
@@ -128,12 +138,12 @@ theorem channel_enabled_nat (l : List Nat) (hb : ∀ x ∈ l, x < 256) (i : Int)
 /-- `N * 8` fits `usize` (true of every array that exists) -/
 def LenOk (n : Nat) : Prop := (n : Int) * 8 ≤ 18446744073709551615
 
-theorem is_enabled_nat (l : List Nat) (hb : ∀ x ∈ l, x < 256) (hl : 0 < l.length) (h64 : LenOk l.length) (i : Int) (h0 : 0 ≤ i) :
+theorem is_enabled_nat (l : List Nat) (hb : ∀ x ∈ l, x < 256) (hl : 0 < l.length) (h64 : LenOk l.length) (i : Int) (h0 : 0 ≤ i) (h1 : i ≤ 18446744073709551615) :
     (Gen.ChannelMaskFn.ChannelMask.is_enabled ⟨l.map Int.ofNat⟩ i).bind id = (Mask.isEnabled l i.toNat).toOption ∧
     (i.toNat ≤ l.length * 8 - 1 → ∃ b, Gen.ChannelMaskFn.ChannelMask.is_enabled ⟨l.map Int.ofNat⟩ i = some (some b)) := by
   unfold Gen.ChannelMaskFn.ChannelMask.is_enabled Mask.isEnabled
   unfold LenOk at h64
-  simp only [List.length_map, Int.ofNat_eq_natCast, channel_enabled_nat l hb i h0]
+  simp only [List.length_map, Int.ofNat_eq_natCast, channel_enabled_nat l hb i h0 h1]
   rw [Rt.ck_usize (by omega) h64]
   simp only [Option.bind_eq_bind, Option.bind_some]
   rw [Rt.ck_usize (by omega) (by omega)]
@@ -172,21 +182,21 @@ theorem get_index_nat (l : List Nat) (i : Int) (h0 : 0 ≤ i) :
 
 /-- `ChannelMask::set_channel` as the current source has it is the model's `Mask.setChannel`: bit
 `channel & 7` of byte `channel >> 3` set or cleared, nothing else touched, out of bounds a panic -/
-theorem set_channel_tie (m : Gen.ChannelMaskFn.ChannelMask) (hm : Octets m._0) (ch : Int) (h0 : 0 ≤ ch) (set : Bool) :
+theorem set_channel_tie (m : Gen.ChannelMaskFn.ChannelMask) (hm : Octets m._0) (ch : Int) (h0 : 0 ≤ ch) (h1 : ch ≤ 18446744073709551615) (set : Bool) :
     (Gen.ChannelMaskFn.ChannelMask.set_channel m ch set).map (fun m' => natsOf m'._0)
       = (Mask.setChannel (natsOf m._0) ch.toNat set).toOption := by
-  have := set_channel_nat (natsOf m._0) (natsOf_lt _ hm) ch h0 set
+  have := set_channel_nat (natsOf m._0) (natsOf_lt _ hm) ch h0 h1 set
   rw [ofNat_natsOf _ hm] at this
   exact this
 
 /-- the mask stays a list of octets of the same length -/
-theorem set_channel_octets (m m' : Gen.ChannelMaskFn.ChannelMask) (hm : Octets m._0) (ch : Int) (h0 : 0 ≤ ch) (set : Bool)
+theorem set_channel_octets (m m' : Gen.ChannelMaskFn.ChannelMask) (hm : Octets m._0) (ch : Int) (h0 : 0 ≤ ch) (h1 : ch ≤ 18446744073709551615) (set : Bool)
     (h : Gen.ChannelMaskFn.ChannelMask.set_channel m ch set = some m') : Octets m'._0 ∧ m'._0.length = m._0.length := by
   have hk : ch.toNat % 8 < 8 := Nat.mod_lt _ (by decide)
   obtain ⟨e1, _, _, _⟩ := bit_facts ⟨0, by decide⟩ ⟨ch.toNat % 8, hk⟩
   simp only at e1
   unfold Gen.ChannelMaskFn.ChannelMask.set_channel at h
-  simp only [shr3 ch h0, and7 ch h0, e1, Option.bind_eq_bind, Option.bind_some] at h
+  simp only [shr3 ch h0, and7 ch h0, div8 ch h0 h1, rem8 ch h0 h1, e1, Option.bind_eq_bind, Option.bind_some] at h
   have hidx : Rt.idx m._0 ((ch.toNat / 8 : Nat) : Int) = m._0[ch.toNat / 8]? := by
     simp only [Rt.idx]; rw [if_neg (by omega), Int.toNat_natCast]
   rw [hidx] at h
@@ -222,11 +232,11 @@ theorem set_channel_octets (m m' : Gen.ChannelMaskFn.ChannelMask) (hm : Octets m
 /-- `ChannelMask::is_enabled(i)` followed by `unwrap()` is the model's `Mask.isEnabled` (`Err(InvalidIndex)`
 past `N * 8 - 1`, else bit `i & 7` of byte `i >> 3`); inside the range it answers `Ok` -/
 theorem is_enabled_tie (m : Gen.ChannelMaskFn.ChannelMask) (hm : Octets m._0) (hl : 0 < m._0.length) (h64 : LenOk m._0.length)
-    (i : Int) (h0 : 0 ≤ i) :
+    (i : Int) (h0 : 0 ≤ i) (h1 : i ≤ 18446744073709551615) :
     (Gen.ChannelMaskFn.ChannelMask.is_enabled m i).bind id = (Mask.isEnabled (natsOf m._0) i.toNat).toOption ∧
     (i.toNat ≤ m._0.length * 8 - 1 → ∃ b, Gen.ChannelMaskFn.ChannelMask.is_enabled m i = some (some b)) := by
   have hlen : (natsOf m._0).length = m._0.length := by simp [natsOf]
-  have := is_enabled_nat (natsOf m._0) (natsOf_lt _ hm) (by omega) (by rw [hlen]; exact h64) i h0
+  have := is_enabled_nat (natsOf m._0) (natsOf_lt _ hm) (by omega) (by rw [hlen]; exact h64) i h0 h1
   rw [ofNat_natsOf _ hm, hlen] at this
   exact this
 
